@@ -7,7 +7,7 @@ SEC = 1000000
 MEAS = ["m1", "m2", "_default"]
 MEAS_FILTERS = [None, None, "m1", "m2", "m3", ""]
 TAG_KEYS = ["a", "b", "k", "bad"]
-TAG_VALS = ["x", "y", "ab", "A", "", None, "b", "abz"]
+TAG_VALS = ["x", "y", "ab", "A", "", None, "b", "abz", "li\nne", "a\r\nb,\"q\"", "x"]
 FIELD_KEYS = ["a", "b"]
 FIELD_VALS = [None, 0, 1, 2, -1, 1.5, 10, float("inf"), 2.0, 0.1]
 
@@ -152,7 +152,7 @@ class Gen:
             return {"invalid": bad}
         n = 0
         if r.random() < 0.25:
-            u["time"] = ("static", self.time()) if r.random() < 0.6 else ("call", r.choice([0, 3, 0, 4] + ([1, 2] if allow_raise else [])))
+            u["time"] = ("static", self.time()) if r.random() < 0.6 else ("call", r.choice([0, 3, 5, 5, 4] + ([1, 2] if allow_raise else [])))
             n += 1
         if r.random() < 0.25:
             u["meas"] = ("static", r.choice(MEAS + ["m3"])) if r.random() < 0.6 else ("call", r.choice([0, 2] + ([1, 3] if allow_raise else [])))
@@ -279,9 +279,104 @@ class Gen:
             return ("reopen", r.random() < 0.6)
         return self.handle_op(True, allow_raise)
 
+    # ---- scenarios: short structured openings that put the database into a state the random walk reaches rarely ----
+    def battery(self):
+        """unfiltered getters and the length: what a valid index must report exactly as a rebuild would"""
+        return [("get_tag_keys", None), ("get_tag_values", [], None), ("get_field_keys", None), ("get_measurements",),
+                ("get_timestamps", None), ("len",), ("index_valid",)]
+
+    def scenario(self, csv):
+        r = self.r
+        obs = [("index_valid",), ("iter",)]
+        k = r.choice(["ooo_batch", "carriers", "bad_batch", "stale_handle", "torn_update", "handle_times", "linebreaks", "zones"])
+        ops = []
+        if k == "ooo_batch":
+            # one insert_multiple whose points go backwards inside the batch, then time queries straight away
+            pts = self.points_batch(r.choice([3, 4, 6]), in_order=True)
+            i, j = r.sample(range(len(pts)), 2)
+            pts[i], pts[j] = pts[j], pts[i]
+            if r.random() < 0.5:
+                ops += [("insert", [self.point(T0 - 5 * SEC)], None)]
+            ops += [("insert", pts, None, "multiple")] + obs
+            for _ in range(6):
+                ops.append(r.choice([("search", self.simple("time"), None, r.random() < 0.5), ("count", self.simple("time"), self.mfilter()),
+                                     ("get_timestamps", r.choice([None, "m1"])), ("select", ["time"], self.simple("time"), None)]))
+        elif k == "carriers":
+            # remove (through the index) every point that carries some tag / field key, while other points stay
+            pts = self.points_batch(r.choice([5, 7, 9]), in_order=True)
+            kind = r.choice(["tag", "field"])
+            key = "zk" if kind == "tag" else "zf"
+            for p in r.sample(pts, r.choice([1, 2])):
+                if kind == "tag":
+                    p["tags"][key] = r.choice(["v", "w"])
+                else:
+                    p["fields"][key] = r.choice([1, 7])
+            q = ("S", "tags", [("k", key)], ("exists",)) if kind == "tag" else ("S", "fields", [("k", key)], ("cmp", ">=", ("n", 0)))
+            ops += [("insert", pts, None, "multiple")] + obs
+            ops += [r.choice([("remove", q, None), ("remove", q, None), ("handle", r.choice(MEAS), ("remove", q))])] + obs + self.battery()
+            ops += [("select", ["tags." + key, "fields." + key, "fields.a"], ("noop", "tags"), None)]
+        elif k == "bad_batch":
+            # a valid index, then an insert_multiple aborted by a non-Point after at least one good point
+            pts = self.points_batch(r.choice([2, 3, 5]), in_order=True)
+            ops += [("insert", pts, None, "multiple"), ("reindex",)] + obs
+            t = max(p["time"] for p in pts)
+            batch = [self.point(t + (i + 1) * SEC) for i in range(r.choice([2, 3]))]
+            batch.insert(r.randrange(1, len(batch) + 1), None)
+            ops += [r.choice([("insert", batch, None, "multiple"), ("handle", "m1", ("insert", batch))])] + obs
+            ops += [("count", ("noop", "tags"), None), ("len",), ("get_timestamps", None), ("search", self.simple("tags"), None, False)]
+            ops += [("insert", [self.point(t + 10 * SEC)], None)] + obs + [("search", self.simple(), None, False), ("count", self.simple(), None)]
+        elif k == "stale_handle":
+            # a handle obtained before the database is emptied, used again afterwards
+            pts = self.points_batch(r.choice([2, 4]), in_order=True)
+            name = r.choice(MEAS)
+            ops += [("insert", pts, None, "multiple"), ("handle", name, ("len",)), ("handle", name, ("count", ("noop", "tags")))]
+            ops += [r.choice([("remove_all",), ("remove", ("noop", "tags"), None), ("drop", name)])] + obs
+            ops += [("handle", name, ("len",)), ("handle", name, ("insert", [self.point(T0 + 50 * SEC)]))] + obs
+            ops += [("handle", name, ("len",)), ("handle", name, ("count", ("noop", "tags"))), ("handle", name, ("get_timestamps",)), ("len",)]
+        elif k == "torn_update":
+            # an update whose callable raises on a later point, then a successful update / remove
+            pts = self.points_batch(r.choice([3, 4, 5]), in_order=True)
+            for p in pts:
+                p["fields"]["a"] = 1
+            pts[r.randrange(1, len(pts))]["fields"]["a"] = 2          # fields callable 3 raises when a == 2
+            ops += [("insert", pts, None, "multiple")] + obs
+            ops += [("update_all", {"fields": ("call", 3), "tags": ("static", {"b": "y"})})] + obs
+            ops += [r.choice([("update_all", {"tags": ("static", {"k": "after"})}),
+                              ("remove", ("S", "fields", [("k", "a")], ("cmp", "==", ("n", 2))), None),
+                              ("update", ("S", "fields", [("k", "a")], ("cmp", "==", ("n", 1))), {"fields": ("static", {"b": 5})}, None)])] + obs
+            ops += [("len",), ("count", ("noop", "fields"), None)]
+        elif k == "handle_times":
+            # storage order differs from time order, index rebuilt, per-measurement timestamps through a handle
+            pts = self.points_batch(r.choice([4, 6]), in_order=True)
+            r.shuffle(pts)
+            ops += [("insert", [p], None) for p in pts] + obs
+            ops += [("count", ("noop", "tags"), None), ("index_valid",)]
+            for name in r.sample(MEAS, 2):
+                ops += [("handle", name, ("get_timestamps",)), ("get_timestamps", name), ("handle", name, ("all", False))]
+        elif k == "linebreaks":
+            # strings containing line breaks, length answered by storage
+            pts = self.points_batch(r.choice([2, 3]), in_order=True)
+            for p in pts:
+                p["tags"]["nl"] = r.choice(["a\nb", "c\r\nd", "e\rf"])
+            ops += [("insert", pts, None, "multiple"), ("insert", [self.point(T0 - 9 * SEC)], None)] + obs + [("len",), ("all", False), ("len",)]
+        else:
+            # the same instant handed in through different zones; callable producing a non-UTC datetime
+            pts = self.points_batch(r.choice([3, 5]), in_order=True)
+            ops += [("insert", pts, None, "multiple")] + obs
+            ops += [("update", self.simple("time"), {"time": ("call", 5)}, None)] + obs
+            ops += [("update_all", {"time": ("static", self.time())})] + obs + [("get_timestamps", None), ("search", self.simple("time"), None, True)]
+        return ops
+
     def history(self, csv, n_ops=None):
         r = self.r
         ops = []
+        if r.random() < self.profile.get("p_scenario", 0.35):
+            self.ids = 0
+            ops = self.scenario(csv)
+            for _ in range(r.choice([0, 2, 4])):
+                ops.append(self.read_op())
+            ops += [("all", False), ("len",), ("index_valid",)]
+            return ops
         n0 = r.choice([0, 2, 3, 5, 8, 11, 14])
         if r.random() < self.profile.get("p_selective", 0.4):
             self.ids = 1
